@@ -88,6 +88,19 @@ func placements(p *picture, rng *Rand) []*placement {
 	}
 	add("sub(3,5)noiseB", subOf(p, 3, 5, 2, 3, 0, 0, rng.Fork()))
 	add("sub(2,1)negorigin", subOf(p, 2, 1, 1, 1, -9, -4, rng.Fork()))
+	// full-width horizontal bands of a taller parent (Stride == 4*w, so "contiguous rows" shortcuts
+	// apply) whose rows above / below carry noise (incl. non-opaque alpha): top band, middle band,
+	// and a parent with extra rows only below
+	add("band-top(+3 below)", subOf(p, 0, 0, 0, 3, 0, 0, rng.Fork()))
+	add("band-mid(2 above,+3 below)", subOf(p, 0, 2, 0, 3, 0, 0, rng.Fork()))
+	add("band-mid-negorigin", subOf(p, 0, 1, 0, 2, -5, -6, rng.Fork()))
+	{ // own buffer, Stride == 4*w, trailing rows of noise after the picture
+		buf := make([]byte, p.w*4*(p.h+2))
+		fillNoise(buf, rng)
+		im := &image.NRGBA{Pix: buf[:len(buf):len(buf)], Stride: p.w * 4, Rect: image.Rect(0, 0, p.w, p.h)}
+		setPixels(im, p)
+		add("band-trailing-rows", &placement{img: im, back: buf, inner: im})
+	}
 	// stride padding, own buffer, cap == len
 	for _, extra := range []int{4, 7, 64} {
 		stride := p.w*4 + extra
@@ -400,6 +413,16 @@ func rgbaSubcheck(c *Ctx, rng *Rand, cfgs []cfgCase) {
 				}
 			}
 			pls = append(pls, pl{"nrgba-of-converted", conv, conv.Pix})
+			for _, bd := range []struct {
+				name       string
+				top, below int
+			}{{"rgba-band-top", 0, 3}, {"rgba-band-mid", 2, 3}} {
+				bp := image.NewRGBA(image.Rect(0, 0, w, h+bd.top+bd.below))
+				fillNoise(bp.Pix, rng)
+				bs := bp.SubImage(image.Rect(0, bd.top, w, bd.top+h)).(*image.RGBA)
+				set(bs)
+				pls = append(pls, pl{bd.name, bs, bp.Pix})
+			}
 			sums := make([]uint64, len(pls))
 			for i := range pls {
 				sums[i] = sum(pls[i].back)
@@ -460,6 +483,8 @@ func rgbaSubcheck(c *Ctx, rng *Rand, cfgs []cfgCase) {
 				// (a) storage of the premultiplied pixels: sub-image / stride padding vs origin
 				cmp(1, 0, fmt.Sprintf("rgba-placement-bytes-differ-%s-%s-subimage", mode, al), "premultiplied source, same pixels, different placement")
 				cmp(2, 0, fmt.Sprintf("rgba-placement-bytes-differ-%s-%s-stridepad", mode, al), "premultiplied source, same pixels, different placement")
+				cmp(5, 0, fmt.Sprintf("rgba-placement-bytes-differ-%s-%s-band", mode, al), "premultiplied source, same pixels, full-width band of a taller parent")
+				cmp(6, 0, fmt.Sprintf("rgba-placement-bytes-differ-%s-%s-band", mode, al), "premultiplied source, same pixels, full-width band of a taller parent")
 				// (b) fast path vs the generic At() path, and vs an NRGBA holding the converted picture
 				cmp(0, refIdx, fmt.Sprintf("rgba-fastpath-vs-generic-%s%s%s-%s", mode, ex, sh, al), "premultiplied source: *image.RGBA fast path vs generic At() path")
 				cmp(4, refIdx, fmt.Sprintf("rgba-converted-nrgba-vs-generic-%s%s%s-%s", mode, ex, sh, al), "NRGBA holding NRGBAModel.Convert(At) vs generic At() path of the RGBA source")
@@ -479,6 +504,8 @@ func placementClass(name string) string {
 		return "wrapper"
 	case strings.HasPrefix(name, "sub"):
 		return "subimage"
+	case strings.HasPrefix(name, "band"):
+		return "band"
 	case strings.HasPrefix(name, "stride"):
 		return "stridepad"
 	case strings.HasPrefix(name, "rect"):
